@@ -7,6 +7,8 @@
   whatever retryable interruptions it reports) either delivers exactly the bytes asked for or fails.
   The io reader keeps a look-ahead buffer (`buf`) in front of the stream.
 -/
+import Amqp.Gen.IoReadKernels
+
 namespace Amqp.IoRead
 
 abbrev Bytes := List UInt8
@@ -102,5 +104,36 @@ def Sl.readExact (s : Sl) (n : Nat) : Option (Bytes × Sl) :=
 
 /-- what an io reader stands for: a slice reader over the bytes it has not yet handed out -/
 def abs (r : Io) : Sl := { rest := r.buf ++ r.src, consumed := r.consumed }
+
+/-- source facts (regenerated from read/ioread.rs on every run): `fill_buffer` loops while the buffer
+    is short, asks for at most `CHUNK` at a time and truncates when the stream fails; `read_exact`
+    takes out of the buffer exactly what it hands over (`drain`, in both branches — never `clear`,
+    which would also drop bytes that were peeked and not asked for) and counts after the copy; `next`
+    takes the first buffered byte before it asks the stream, and counts one; `peek_bytes` fills and
+    does not count; the forwarding read fills, hands over, drains and counts, in that order, and
+    does not go through the counting `read_bytes` (which would count twice) -/
+def sourceShape : Bool :=
+  open Amqp.Gen.IoReadK in
+  decide (fill_buffer_order.idx_while_self___buf___len_______len < fill_buffer_order.idx_min___CHUNK__) &&
+  decide (fill_buffer_order.idx_min___CHUNK__ < fill_buffer_order.idx_read_exact) &&
+  decide (fill_buffer_order.idx_read_exact < fill_buffer_order.idx_truncate) &&
+  decide (fill_buffer_order.idx_truncate < 1000) &&
+  decide (pop_first_order.idx_self___buf___remove___0__ < 1000) &&
+  decide (read_exact_order.idx_if_l___n < read_exact_order.idx_self___buf___drain) &&
+  decide (read_exact_order.idx_self___buf___drain < read_exact_order.idx_self___consumed_____n) &&
+  decide (read_exact_order.idx_self___consumed_____n < read_exact_order.idx_last_self___buf___drain) &&
+  decide (read_exact_order.idx_last_self___buf___drain < 1000) &&
+  decide (read_exact_order.idx_self___buf___clear = 1000) &&
+  decide (next_order.idx_pop_first < next_order.idx_self___consumed_____1) &&
+  decide (next_order.idx_self___consumed_____1 < next_order.idx_read_exact) &&
+  decide (next_order.idx_read_exact < 1000) &&
+  decide (peek_bytes_order.idx_if_l___n < peek_bytes_order.idx_fill_buffer) &&
+  decide (peek_bytes_order.idx_fill_buffer < 1000) &&
+  decide (peek_bytes_order.idx_self___consumed = 1000) &&
+  decide (forward_bytes_order.idx_fill_buffer < forward_bytes_order.idx_visit_bytes) &&
+  decide (forward_bytes_order.idx_visit_bytes < forward_bytes_order.idx_self___buf___drain) &&
+  decide (forward_bytes_order.idx_self___buf___drain < forward_bytes_order.idx_self___consumed_____len) &&
+  decide (forward_bytes_order.idx_self___consumed_____len < 1000) &&
+  decide (forward_bytes_order.idx_read_bytes = 1000)
 
 end Amqp.IoRead
